@@ -239,10 +239,34 @@ func genCase(t *rapid.T) Case {
 	for i := 0; i < n; i++ {
 		add(rapid.SampledFrom(kindList).Draw(t, "kind"))
 	}
+	// intermediate saves: a document that was saved before it was finished is an API-built document too.
+	// 0-3 "save" ops (ToBytes on the live document) at arbitrary positions ...
+	for i := rapid.SampledFrom([]int{0, 0, 1, 1, 2, 3}).Draw(t, "nsaves"); i > 0; i-- {
+		at := rapid.IntRange(1, len(c.Ops)).Draw(t, "saveat")
+		c.Ops = append(c.Ops[:at], append([]ops.Op{{K: "save"}}, c.Ops[at:]...)...)
+	}
+	// ... and, often, a save followed only by edits of existing elements (no body element added or removed)
+	if rapid.IntRange(0, 2).Draw(t, "savetail") == 0 {
+		c.Ops = append(c.Ops, ops.Op{K: "save"})
+		for i := rapid.IntRange(1, 5).Draw(t, "ntail"); i > 0; i-- {
+			add(rapid.SampledFrom(inPlaceKinds).Draw(t, "tailkind"))
+			if rapid.IntRange(0, 4).Draw(t, "resave") == 0 {
+				c.Ops = append(c.Ops, ops.Op{K: "save"})
+				add(rapid.SampledFrom(inPlaceKinds).Draw(t, "tailkind2"))
+			}
+		}
+	}
 	c.Cycles = rapid.SampledFrom([]int{1, 2, 2, 3, 3, 4}).Draw(t, "cycles")
 	c.File = rapid.IntRange(0, 3).Draw(t, "file") == 0
 	return c
 }
+
+// inPlaceKinds change existing body elements without adding or removing a top-level one
+// (page-setting kinds do so only when a section element already exists).
+var inPlaceKinds = []string{"addtext", "addtext", "addtext", "ppagebreak", "align", "spacing", "indent", "pformat", "keepnext", "outline", "pstyle", "pborder",
+	"pbold", "pcolor", "psize", "pfont", "celltext", "celltext", "cellftext", "celladdtext", "cellpara", "cellfmt", "celldir", "cellborders", "cellshading",
+	"mergeh", "mergev", "merger", "rowheight", "rowheader", "insrow", "approw", "delrow", "appcol", "nestedh", "cellimg", "tblborders", "tblalign",
+	"orient", "margins", "pagesize", "docgrid", "difffirst", "imgalign"}
 
 // ---------------------------------------------------------------------------------------------
 // observers
@@ -553,6 +577,7 @@ func run(c Case) *kit.Result {
 	// 1. build
 	var shape []string
 	okKinds := map[string]bool{}
+	nSaves, lenAtSave, editsSinceSave := 0, -1, 0
 	for i, op := range c.Ops {
 		for _, cl := range op.Cls {
 			res.Label("str:" + cl)
@@ -582,12 +607,31 @@ func run(c Case) *kit.Result {
 		} else {
 			e = "noop"
 		}
+		if op.K == "save" {
+			x.Saves = nil // intermediate packages are not judged here (C01 does); the final save must reflect the final body
+			if err == nil {
+				nSaves++
+				lenAtSave, editsSinceSave = len(x.Doc.Body.Elements), 0
+			}
+		} else if err == nil && target {
+			editsSinceSave++
+		}
 		shape = append(shape, op.K+":"+e)
 	}
 	D := x.Doc
 	if D == nil || D.Body == nil {
 		res.Count("discarded:no-body", 1)
 		return res
+	}
+	if nSaves > 0 {
+		res.Label("intermediate-save")
+		if editsSinceSave > 0 {
+			res.Label("save-then-edit")
+			if len(D.Body.Elements) == lenAtSave {
+				// the edits after the last intermediate save changed existing elements only (same number of body children)
+				res.Label("save-then-inplace-edit")
+			}
+		}
 	}
 
 	// 2. first save
@@ -886,7 +930,7 @@ func TestC03(t *testing.T) {
 	kit.Main(t, kit.Spec[Case]{
 		ID: "C03", Level: "exploration",
 		Rule: "document built by 8-30 (thorough 8-50) generated API calls (paragraph/run/table/picture/section setters with their argument ranges, XML-expressible text) " +
-			"optionally preceded by a scenario prefix, then 1-4 save/open cycles through memory or a file; non-trivial = (>=3 kinds of body children or a merged/nested table) " +
+			"optionally preceded by a scenario prefix, with 0-3 intermediate saves of the live document at arbitrary positions and (1 case in 3) a tail of one more save followed by 1-5 edits of existing elements, then 1-4 save/open cycles through memory or a file; non-trivial = (>=3 kinds of body children or a merged/nested table) " +
 			"and >=2 distinct successful formatting setters and >=2 cycles; distinct = distinct set of (op kind, outcome) plus cycle count",
 		Gen: genCase, Run: run, Findings: findings,
 		Assumptions: []string{
@@ -896,7 +940,7 @@ func TestC03(t *testing.T) {
 		},
 		MustSee: map[string]float64{"feat:nested-table": 0.08, "feat:run-break": 0.1, "feat:floating-picture": 0.1, "cycles>=3": 0.3, "feat:merge-h": 0.08, "feat:merge-v": 0.05,
 			"op:align": 0.05, "op:spacing": 0.05, "op:indent": 0.05, "op:keepnext": 0.03, "op:keeplines": 0.03, "op:pbb": 0.03, "op:widow": 0.03, "op:outline": 0.03,
-			"op:snap": 0.03, "op:pstyle": 0.03, "op:pborder": 0.03, "op:pformat": 0.05, "feat:edge-whitespace-text": 0.2, "feat:non-ascii-text": 0.2},
+			"intermediate-save": 0.4, "save-then-inplace-edit": 0.15, "op:snap": 0.03, "op:pstyle": 0.03, "op:pborder": 0.03, "op:pformat": 0.05, "feat:edge-whitespace-text": 0.2, "feat:non-ascii-text": 0.2},
 		Fixed: fixedCases,
 	})
 }
